@@ -136,8 +136,15 @@ Definition out_nets : list net :=
   if merge then map (fun x => cat_net (wname x) (xnat x) (wname x)) (filter is_out (wires nl))
   else [].
 
+(* combinational groups first (in the netlist's dependency order), then the
+   register and memory-write groups: their arguments need only be ready at the
+   end of the combinational phase (Sem reads them from the final valuation) *)
+Definition comb_nets : list net := filter (fun n => is_comb (nop n)) (nets nl).
+Definition seq_nets : list net := filter (fun n => negb (is_comb (nop n))) (nets nl).
+Definition osynth : list gnet := map (synth_net nl) comb_nets ++ map (synth_net nl) seq_nets.
+
 Definition flatten : netlist :=
-  let '(ns, ws) := emit_gnets (synth nl) T0 in
+  let '(ns, ws) := emit_gnets osynth T0 in
   {| wires := vec_wires ++ bit_wires ++ ws;
      nets := in_nets ++ ns ++ out_nets;
      mems := mems nl |}.
